@@ -349,11 +349,18 @@ func (e *Env) bin(n *EBin) (tv, error) {
 	case "<", "<=", ">", ">=":
 		if e.sortOfS(a.ty) == "F64" {
 			op := map[string]string{"<": "fp.lt", "<=": "fp.leq", ">": "fp.gt", ">=": "fp.geq"}[n.Op]
+			if e.g != nil && e.g.ct != nil && e.g.ct.FloatAbs {
+				op = map[string]string{"<": "flt_u", "<=": "fleq_u", ">": "fgt_u", ">=": "fgeq_u"}[n.Op]
+			}
 			return tv{t: fmt.Sprintf("(%s %s %s)", op, a.t, b.t), ty: stBool}, nil
 		}
 		return tv{t: fmt.Sprintf("(%s %s %s)", n.Op, a.t, b.t), ty: stBool}, nil
 	case "+", "-", "*":
 		if e.sortOfS(a.ty) == "F64" {
+			if e.g != nil && e.g.ct != nil && e.g.ct.FloatAbs {
+				op := map[string]string{"+": "fadd_u", "-": "fsub_u", "*": "fmul_u"}[n.Op]
+				return tv{t: fmt.Sprintf("(%s %s %s)", op, a.t, b.t), ty: a.ty}, nil
+			}
 			op := map[string]string{"+": "fp.add", "-": "fp.sub", "*": "fp.mul"}[n.Op]
 			return tv{t: fmt.Sprintf("(%s RNE %s %s)", op, a.t, b.t), ty: a.ty}, nil
 		}
@@ -698,6 +705,9 @@ func (e *Env) call(n *ECall) (tv, error) {
 		as, err := args()
 		if err != nil {
 			return tv{}, err
+		}
+		if e.g != nil && e.g.ct != nil && e.g.ct.FloatAbs {
+			return tv{t: fmt.Sprintf("(u2f_u %s)", as[0].t), ty: goT(types.Typ[types.Float64])}, nil
 		}
 		return tv{t: fmt.Sprintf("(u2f %s)", as[0].t), ty: goT(types.Typ[types.Float64])}, nil
 	case "f64":
